@@ -31,7 +31,12 @@ def renderObs (cfg : Cfg) : Obs → String
   | .onLogout => "cb onLogout"
   | .armPeer ms => "arm peer " ++ toString ms
   | .closed => "closed"
-  | .store w => "store " ++ w
+  | .reset => "store reset"
+  | .saved n k r => "store save " ++ toString n ++ " " ++ k ++ " " ++ (if r then "y" else "n")
+  | .incS => "store incS"
+  | .incT => "store incT"
+  | .setT n => "store setT " ++ toString n
+  | .refresh => "store refresh"
 
 def insertInt (n : Int) : List Int → List Int
   | [] => [n]
